@@ -744,7 +744,7 @@ package eventbus
 // sqlite / durablestream packages).
 //@ event readCall := call EventStore.Read
 //@ event readStreamCall := call EventStoreStreamer.ReadStream
-//@ event replayCb := call func(*StoredEvent) error record 1:Int
+//@ event replayCb := call func(*StoredEvent) error record 1:Int res:Iface
 //@ method EventStore.Read(store, ctx, from, limit)
 //@   effect opaque
 //@   ensures err == nil ==> readOK(log(payload(store)), from, limit, result0, result1)
@@ -770,12 +770,15 @@ package eventbus
 //@   requires bus.store != nil ==> resumable(log(payload(bus.store)), from)
 //@   ensures [C11.nostore] bus.store == nil ==> result != nil && cnt(replayCb) == 0
 //@   ensures [C11.frame] cnt(Append) == 0 && cnt(deliver) == 0 && cnt(publishCtx) == 0
+// a failing callback ends the replay with an error: nil means every callback returned nil
+//@   ensures [C11.cb.err] (exists j int :: 0 <= j && j < cnt(replayCb) && nthres(replayCb, j) != nil) ==> result != nil
 //@   ensures [C11.stream.nil] bus.store != nil && implements_EventStoreStreamer(dynType(bus.store)) && result == nil ==>
 //@        cnt(replayCb) == seqLen(lastres(readStreamCall)) && seqErr(lastres(readStreamCall)) == nil
 //@   ensures [C11.stream.prefix] bus.store != nil && implements_EventStoreStreamer(dynType(bus.store)) ==>
 //@        cnt(readStreamCall) == 1 && cnt(readCall) == 0 && cnt(replayCb) <= seqLen(lastres(readStreamCall)) &&
 //@        lastarg(readStreamCall, 2, String) == from &&
 //@        (forall j int :: {nth(replayCb, j, 1)} 0 <= j && j < cnt(replayCb) ==> nth(replayCb, j, 1) == seqAt(lastres(readStreamCall), j))
+//@   iterate invariant [C11.stream.cbok] forall j int :: {nthres(replayCb, j)} 0 <= j && j < cnt(replayCb) ==> nthres(replayCb, j) == nil
 //@   iterate invariant [C11.stream.loop] cnt(replayCb) == iterk && result == nil && jump_1 == 0 && cnt(readStreamCall) == 1 && cnt(readCall) == 0 &&
 //@        cnt(Append) == 0 && cnt(deliver) == 0 && cnt(publishCtx) == 0 &&
 //@        (forall j int :: {nth(replayCb, j, 1)} 0 <= j && j < iterk ==> nth(replayCb, j, 1) == seqAt(iterator, j))
@@ -784,6 +787,8 @@ package eventbus
 //@   ensures [C11.paged.prefix] bus.store != nil && !implements_EventStoreStreamer(dynType(bus.store)) ==>
 //@        P0(bus, from) + cnt(replayCb) <= logLen(log(payload(bus.store))) && delivered(bus, from, log(payload(bus.store)), cnt(replayCb))
 //@        && cnt(readStreamCall) == 0
+//@   loop 1 invariant [C11.paged.cbok] forall j int :: {nthres(replayCb, j)} 0 <= j && j < cnt(replayCb) ==> nthres(replayCb, j) == nil
+//@   loop 2 invariant [C11.page.cbok] forall j int :: {nthres(replayCb, j)} 0 <= j && j < cnt(replayCb) ==> nthres(replayCb, j) == nil
 //@   loop 1 invariant [C11.paged.loop] logExtends(log(payload(bus.store)), old(log(payload(bus.store)))) && batchSize >= 1 &&
 //@        (forall L2 ref :: {logExtends(L2, log(payload(bus.store)))} logExtends(L2, log(payload(bus.store))) ==> posOf(L2, offset) == P0(bus, from) + cnt(replayCb)) &&
 //@        P0(bus, from) + cnt(replayCb) <= logLen(log(payload(bus.store))) && delivered(bus, from, log(payload(bus.store)), cnt(replayCb)) && cnt(replayCb) >= 0
